@@ -728,6 +728,56 @@ def comp_ksib(prop, tier, comp, work):
 def _norm(c):
     return c.replace(" ", "")
 
+def _wraps_whole(c):
+    if not (c.startswith("(") and c.endswith(")")):
+        return False
+    depth = 0
+    for k, ch in enumerate(c):
+        depth += ch == "("; depth -= ch == ")"
+        if depth == 0 and k < len(c) - 1:
+            return False
+    return True
+
+
+def _strip_not(c, pol):
+    """peel  (!(X)) / !(X)  layers: returns X with the polarity flipped once per negation"""
+    c = c.strip()
+    for _ in range(6):
+        if _wraps_whole(c) and c[1:-1].lstrip().startswith("!"):
+            c = c[1:-1].strip()
+        if c.startswith("!"):
+            c = c[1:].strip(); pol = 1 - pol
+            continue
+        break
+    return c, pol
+
+
+def packed_guard(c, pol):
+    """(lanes, size) if the guard edge is equivalent to  i + lanes <= size  (spellings of one linear inequality), else None"""
+    c, pol = _strip_not(c, pol)
+    pats_true = [r"\(\(%i\+%(?P<L>\w+)\)<=%(?P<S>\w+)\)", r"\(\(%(?P<L>\w+)\+%i\)<=%(?P<S>\w+)\)",
+                 r"\(%(?P<S>\w+)>=\(%i\+%(?P<L>\w+)\)\)", r"\(%(?P<S>\w+)>=\(%(?P<L>\w+)\+%i\)\)",
+                 r"\(\(\(%i\+%(?P<L>\w+)\)-1\)<%(?P<S>\w+)\)", r"\(%(?P<S>\w+)>\(\(%i\+%(?P<L>\w+)\)-1\)\)"]
+    pats_false = [r"\(\(%i\+%(?P<L>\w+)\)>%(?P<S>\w+)\)", r"\(\(%(?P<L>\w+)\+%i\)>%(?P<S>\w+)\)", r"\(%(?P<S>\w+)<\(%i\+%(?P<L>\w+)\)\)"]
+    for pt in (pats_true if pol == 1 else pats_false):
+        m = re.fullmatch(pt, c)
+        if m:
+            return m.group("L"), m.group("S")
+    return None
+
+
+def tail_guard(c, pol):
+    """size name if the guard edge is equivalent to  i < size"""
+    c, pol = _strip_not(c, pol)
+    pats_true = [r"\(%i<%(?P<S>\w+)\)", r"\(%(?P<S>\w+)>%i\)"]
+    pats_false = [r"\(%i>=%(?P<S>\w+)\)", r"\(%(?P<S>\w+)<=%i\)"]
+    for pt in (pats_true if pol == 1 else pats_false):
+        m = re.fullmatch(pt, c)
+        if m:
+            return m.group("S")
+    return None
+
+
 def rule_simd(rows, prop):
     findings, samples = [], []
     n_packed = n_tail = n_seed = n_uncovered = 0
@@ -763,8 +813,8 @@ def rule_simd(rows, prop):
                     n_packed += 1
                     ok = False
                     for c, pol in guards:
-                        mm = re.fullmatch(r"\(\(%i\+%(\w+)\)<=%(\w+)\)", c)
-                        if mm and pol == 1 and lanes_ok(mm.group(1)) and size_ok(mm.group(2)):
+                        pg = packed_guard(c, pol)
+                        if pg and lanes_ok(pg[0]) and size_ok(pg[1]):
                             ok = True
                     if not ok:
                         findings.append(finding("R-SIMDRANGE.packed", prop, r, f["b"].split("::")[-1], "packed %s at &%s[i] is not dominated by the true edge of (i + lanes) <= size; guards seen: %s" % (kind, ptr, guards[:4]), f.get("line")))
@@ -778,10 +828,10 @@ def rule_simd(rows, prop):
         for f in r["facts"]:
             if f["k"] == "assign" and re.fullmatch(r"%\w+\[%i\]", f["a"]) and "ptr" in f["a"]:
                 guards = [(_norm(g["cond"]), g["pol"]) for g in f.get("g", []) if "cond" in g]
-                if any(re.fullmatch(r"\(\(%i\+%\w+\)<=%\w+\)", c) and pol == 1 for c, pol in guards):
+                if any(packed_guard(c, pol) for c, pol in guards):
                     continue
                 n_tail += 1
-                if not any(re.fullmatch(r"\(%i<%(\w+)\)", c) and pol == 1 and size_ok(re.fullmatch(r"\(%i<%(\w+)\)", c).group(1)) for c, pol in guards):
+                if not any(tail_guard(c, pol) and size_ok(tail_guard(c, pol)) for c, pol in guards):
                     findings.append(finding("R-SIMDRANGE.tail", prop, r, f["a"], "scalar tail store %s is not dominated by the true edge of i < size; guards seen: %s" % (f["a"], guards[:4]), f.get("line")))
         if short == "eval_reduction":
             lams = lambdas.get(r.get("sig", ""), {})
